@@ -55,14 +55,20 @@ func Dot(spec *Spec, w io.WriteCloser, fromNode, toNode string) error {
 
 	seen := make(map[string]bool)
 	node := func(name string, n *Node) error {
-		if n == nil {
-			return fmt.Errorf("unknown node '%s'", name)
-		}
-
 		if _, already := seen[name]; already {
 			return nil
 		}
 		seen[name] = true
+
+		if n == nil {
+			// A branch target that isn't a node in this spec
+			// (or is a branch target variable).  Draw a
+			// placeholder so that the branch still gets its edge
+			// (and the remaining branches are still processed).
+			fmt.Fprintf(w, "  %s [shape=\"record\", style=\"dashed\", color=\"gray\", label=<%s> ]\n",
+				name, name)
+			return nil
+		}
 		label := name
 		if n.Doc != "" {
 			doc := n.Doc
